@@ -328,7 +328,7 @@ def trim(x, n=4000):
 # --------------------------------------------------------------------------- trace validation (code -> model)
 
 def validate_traces(wd, module, consts, traces, invariants=(), timeout=600, max_rounds=4, extra_cfg=None, dfs=False,
-                    headers=None):
+                    headers=None, highwater=False):
     """traces: list of lists of event dicts (without the reset markers).
     Returns (accepted, rejections, tlc_stats) where rejections = [(trace_index, event_index_in_trace)]."""
     alive = list(range(len(traces)))
@@ -349,7 +349,8 @@ def validate_traces(wd, module, consts, traces, invariants=(), timeout=600, max_
                     index.append((ti, ei))
         c = dict(consts)
         c["TraceFile"] = "trace.ndjson"
-        cfg = mkcfg(spec="TraceSpec", consts=c, invariants=invariants, postcondition="TraceAccepted")
+        cfg = mkcfg(spec="TraceSpec", consts=c, invariants=invariants, postcondition="TraceAccepted",
+                    constraints=["HighWater"] if highwater else ())
         if extra_cfg:
             cfg += extra_cfg
         r = run_tlc(wd, module, cfg, workers=1, timeout=timeout, dfs=dfs)
